@@ -15,20 +15,74 @@
 #define CIF_EOF -1   /* parser.c's private end-of-input code */
 int cif_parse_internal(struct scanner_s *scanner, int not_utf8, const char *extra_ws, const char *extra_eol, cif_tp *dest);
 static UChar input[NIN]; static unsigned in_pos, in_len;
+#if defined(REAL_FILL) && !defined(VERIF_REPLAY)
+/* memmove / memcpy specialised to UChar units (as in h08_step.c: CBMC's byte-level models with symbolic sizes exhaust memory) */
+void *memmove(void *d, const void *s, size_t n) { UChar *dd = (UChar *) d; const UChar *ss = (const UChar *) s; size_t i, m = n / sizeof(UChar);
+    if (dd < ss) { for (i = 0; i < m; i++) dd[i] = ss[i]; } else if (dd > ss) { for (i = m; i > 0; i--) dd[i - 1] = ss[i - 1]; } return d; }
+void *memcpy(void *d, const void *s, size_t n) { UChar *dd = (UChar *) d; const UChar *ss = (const UChar *) s; size_t i, m = n / sizeof(UChar);
+    for (i = 0; i < m; i++) dd[i] = ss[i]; return d; }
+#endif
+#ifdef REAL_FILL
+/* REAL_FILL: the real get_first_char / get_more_chars run, fed by a character source that hands over the input in chunks of
+ * arbitrary size (1 .. what is asked for); used with small NIN to decide what the error callback is handed at start-up (C03). */
+static ssize_t rd(void *src, UChar *dest, ssize_t count, int *err) {
+    ssize_t n, k; if (in_pos >= in_len || count <= 0) return 0;
+#ifdef CHUNK
+    n = CHUNK; if (n > count) n = count;                     /* concrete chunk size per instance */
+#else
+    n = (ssize_t) vnd_range(1, NIN); if (n > count) n = count;
+#endif if (n > (ssize_t) (in_len - in_pos)) n = (ssize_t) (in_len - in_pos);
+    for (k = 0; k < NIN; k++) if (k < n) dest[k] = input[in_pos + k];
+    in_pos += (unsigned) n; return n;
+}
+#else
 static ssize_t rd(void *src, UChar *dest, ssize_t count, int *err) { return 0; }
-/* Buffer management is verified on its own (C08); here the two fill functions are replaced by their contract for a source
- * that delivers the whole (already EOL-normalised) input at once: get_first_char buffers everything, get_more_chars reports EOF. */
+/* Buffer management is verified on its own (C08); here the two fill functions are replaced by their behaviour for a
+ * source that hands over one unit first and then everything else (EOL-normalised), in a buffer larger than the input:
+ * get_first_char buffers ONE unit (as the real one does); get_more_chars resets an entirely consumed buffer to its start
+ * (the real rule `chars_consumed >= buffer_limit`), otherwise appends in place - with <= 12 units in a 16-unit buffer the
+ * compaction / expansion branches of the real function are not reachable. */
 int __CPROVER_file_local_parser_c_get_first_char(struct scanner_s *s) {
-    unsigned k;
     if (in_len == 0) { s->at_eof = 1; return CIF_EOF; }
-    for (k = 0; k < NIN; k++) if (k < in_len) s->buffer[k] = input[k];
-    s->buffer_limit = in_len; s->at_eof = 1; s->tvalue_start = s->buffer;
+#ifdef FIRST_ALL    /* long inputs (magic-comment logic): everything is buffered by the first fill - the content the scanner sees does not depend on the chunking (C08) and positions stay concrete */
+    { unsigned k; for (k = 0; k < NIN; k++) if (k < in_len) s->buffer[k] = input[k]; }
+    in_pos = in_len; s->buffer_limit = in_len; s->at_eof = 1; s->tvalue_start = s->buffer;
+#else
+    s->buffer[0] = input[0]; in_pos = 1;
+    s->buffer_limit = 1; s->tvalue_start = s->buffer;
+#endif
     if ((input[0] > 0x7E) ? (input[0] != 0xFEFF) : (s->char_class[input[0]] == NO_CLASS)) { int r = s->error_callback(CIF_DISALLOWED_INITIAL_CHAR, 1, 0, s->buffer, 1, s->user_data); if (r != CIF_OK) return r; }
     return CIF_OK;
 }
-int __CPROVER_file_local_parser_c_get_more_chars(struct scanner_s *s) { s->at_eof = 1; return CIF_EOF; }
+int __CPROVER_file_local_parser_c_get_more_chars(struct scanner_s *s) {
+    unsigned k, rest;
+    if (in_pos >= in_len) { s->at_eof = 1; return CIF_EOF; }
+    rest = in_len - in_pos;
+    if ((size_t) (s->text_start - s->buffer) >= s->buffer_limit) {       /* (the copy is written per branch so that positions stay concrete for the solver) */
+        s->text_start = s->buffer; s->tvalue_start = s->buffer; s->next_char = s->buffer;
+        for (k = 0; k < NIN; k++) if (k < rest) s->buffer[k] = input[in_pos + k];
+        s->buffer_limit = rest;
+    } else {
+        for (k = 0; k < NIN; k++) if (k < rest) s->buffer[s->buffer_limit + k] = input[in_pos + k];
+        s->buffer_limit += rest;
+    }
+    in_pos = in_len; s->at_eof = 1;
+    return CIF_OK;
+}
+#endif
 static int nerr, codes[4], reject_at;
-static int errcb(int code, size_t line, size_t col, const UChar *t, size_t len, void *d) { if (nerr < 4) codes[nerr] = code; nerr++; return (nerr == reject_at) ? code : 0; }
+static int text_bad, line_bad; static unsigned sink;
+static int errcb(int code, size_t line, size_t col, const UChar *t, size_t len, void *d) {
+    if (nerr < 4) codes[nerr] = code; nerr++;
+    if (line < 1) line_bad = 1;
+#if !defined(VERIF_REPLAY) && !defined(NO_ROK)
+    if (t != NULL && len > 0 && !__CPROVER_r_ok(t, len * sizeof(UChar))) text_bad = 1;
+#elif !defined(VERIF_REPLAY)
+#else
+    if (t != NULL) { size_t k; for (k = 0; k < len; k++) sink += t[k]; }          /* ASan reports an unreadable text */
+#endif
+    return (nerr == reject_at) ? code : 0;
+}
 static int pc_calls, pc_version, pc_rewound, pc_unfold, pc_prefix, pc_bracket_class, pc_first;
 int __CPROVER_file_local_parser_c_parse_cif(struct scanner_s *s, cif_tp *cif) {
     pc_calls++; pc_version = s->cif_version; pc_rewound = (s->next_char == s->text_start && s->column == 0); pc_unfold = s->line_unfolding; pc_prefix = s->prefix_removing;
@@ -40,6 +94,9 @@ static int is_ws(UChar c) { return c == 0x20 || c == 0x09 || c == 0x0a || c == 0
 void harness(void) {
     struct scanner_s sc; cif_handler_tp h; int v0, not_utf8, rc, i, bom, start, tlen, exp_v, is2, is7; unsigned k;
     for (k = 0; k < NIN; k++) { input[k] = vnd_u16(); V_ASSUME(input[k] != 0x0d); }   /* the fill functions hand over EOL-normalised text (C08) */
+#if defined(BOMCASE) && BOMCASE < 2      /* whether the input starts with a byte-order mark is fixed per instance (it decides where the text sits in the buffer) */
+    if (NIN > 0) V_ASSUME((input[0] == 0xFEFF) == (BOMCASE == 1));
+#endif
     in_len = NIN; in_pos = 0;        /* concrete length per instance (driver enumerates), contents symbolic */
     v0 = vnd_int(); V_ASSUME(v0 == -2 || v0 == 0 || v0 == 1 || v0 == 2); not_utf8 = vnd_bool(); reject_at = vnd_range(0, 2);
     { cif_handler_tp z = { 0, 0, 0, 0, 0, 0, 0, 0, 0, 0, 0 }; h = z; }
@@ -48,6 +105,8 @@ void harness(void) {
     nerr = 0;
     rc = cif_parse_internal(&sc, not_utf8, NULL, NULL, NULL);
     /* ---- oracle ---- */
+    V_ASSERT(!text_bad, "every error callback gets a text pointer that is NULL or readable for the stated length");
+    V_ASSERT(!line_bad, "every error callback gets a line number >= 1");
     bom = (in_len > 0 && input[0] == 0xFEFF); start = bom ? 1 : 0;
     tlen = 0; while (start + tlen < (int) in_len && !is_ws(input[start + tlen])) tlen++;
     is2 = (tlen == 10); is7 = (tlen == 10); for (i = 0; i < 10; i++) if (start + i < (int) in_len) { if (input[start + i] != M[i]) { is2 = 0; if (i < 7) is7 = 0; } }
